@@ -1,4 +1,6 @@
 import Verif.Proofs.Str
+import Verif.Proofs.StrIndex
+import Verif.Proofs.StrCount
 /-!
 # C19 — Strings behave as sequences of grapheme clusters of their normalized form
 
@@ -78,18 +80,12 @@ example : (⟨[[0x61], [0x65, 0xcc, 0x81], [0x62]]⟩ : Str).sliceBytes 1 3 = .o
     (⟨[[0x61], [0x65, 0xcc, 0x81], [0x62]]⟩ : Str).sliceBytes 2 1 = .error .invalidSliceIndex ∧
     (⟨[[0x61]]⟩ : Str).sliceBytes 0 2 = .error .sliceIndices := by decide
 
-/-- Soundness of the aligned search, for *any* segmentation: whenever the byte search with its two
-boundary tests (`strings.Index`, `seekGraphemeBoundaryStartPrepared`, `isGraphemeBoundaryEndPrepared`)
-reports a match `(i, off)` for a non-empty needle, `off` is the byte offset at which cluster `i`
-starts and a whole number of clusters from `i` on concatenate to exactly the needle; the empty needle
-is found at 0 and nothing is found in the empty string.
-
-Full statement `index_aligned` (the reported index is moreover the *first* such `i`, i.e.
-`s.indexOf needle = (Spec.Str.indexOf s.clusters needle 0).map fun i => (i, startOf s.clusters i)`,
-and `count` / `split` / `replaceAll` equal their cluster-list specs): not proved here — checked on
-every `index` / `contains` / `count` / `split` / `replace` line of stream `str` by the executable
-cluster-list spec. -/
-theorem index_aligned_partial (s : Str) (needle : Bytes) :
+/-- Soundness of the aligned search, for *any* segmentation (empty clusters included): whenever the
+byte search with its two boundary tests (`strings.Index`, `seekGraphemeBoundaryStartPrepared`,
+`isGraphemeBoundaryEndPrepared`) reports a match `(i, off)` for a non-empty needle, `off` is the byte
+offset at which cluster `i` starts and a whole number of clusters from `i` on concatenate to exactly
+the needle; the empty needle is found at 0 and nothing is found in the empty string. -/
+theorem index_sound_any_segmentation (s : Str) (needle : Bytes) :
     (needle = [] → s.indexOf needle = some (0, 0)) ∧
     (needle ≠ [] → s.bytes = [] → s.indexOf needle = none) ∧
     (needle ≠ [] → ∀ i off, s.indexOf needle = some (i, off) →
@@ -106,6 +102,98 @@ theorem index_aligned_partial (s : Str) (needle : Bytes) :
 -- `"e\u{301}a".index(of: "e")`: the byte occurrence at 0 ends inside a cluster; `"ae\u{301}".index(of: "e\u{301}")` = 1
 example : (⟨[[0x65, 0xcc, 0x81], [0x61]]⟩ : Str).indexOf [0x65] = none ∧
     (⟨[[0x61], [0x65, 0xcc, 0x81]]⟩ : Str).indexOf [0x65, 0xcc, 0x81] = some (1, 1) := by decide
+
+/-- **The byte search with boundary checks returns the first cluster-aligned occurrence.**  For every
+segmentation into non-empty clusters and every non-empty needle, `indexOf` — `strings.Index` from an
+increasing start offset, each candidate accepted only if it starts at a cluster start
+(`seekGraphemeBoundaryStartPrepared`) and ends at a cluster end (`isGraphemeBoundaryEndPrepared`),
+the iterator restored after a failed candidate — equals the search on the cluster list: the least
+cluster index `i` such that a whole number of clusters from `i` on concatenate to the needle
+(with its byte offset), or none when there is no such `i`.  Soundness, completeness and minimality. -/
+theorem index_aligned (s : Str) (hw : s.wf) (needle : Bytes) :
+    (needle = [] → s.indexOf needle = some (0, 0)) ∧
+    (needle ≠ [] → s.indexOf needle =
+      (Verif.Spec.Str.indexOf s.clusters needle 0).map (fun i => (i, startOf s.clusters i))) ∧
+    (∀ i, Verif.Spec.Str.indexOf s.clusters needle 0 = some i →
+      i < s.clusters.length ∧ Verif.Spec.Str.alignedPrefix (s.clusters.drop i) needle = true ∧
+      ∀ j, j < i → Verif.Spec.Str.alignedPrefix (s.clusters.drop j) needle = false) ∧
+    (Verif.Spec.Str.indexOf s.clusters needle 0 = none →
+      ∀ j, j < s.clusters.length → Verif.Spec.Str.alignedPrefix (s.clusters.drop j) needle = false) := by
+  refine ⟨?_, fun hn => indexOf_eq_spec s hw needle hn, ?_, spec_indexOf_none _ _ _⟩
+  · intro h; subst h; simp [Str.indexOf]
+  · intro i hi
+    obtain ⟨k, hk, hl, hal, hmin⟩ := spec_indexOf_some _ _ _ _ hi
+    have : i = k := by omega
+    subst this
+    exact ⟨hl, hal, hmin⟩
+
+-- "e\u{301}e".index(of: "e"): the byte occurrence at 0 is inside a cluster, the aligned one is cluster 1 (offset 3)
+example : (⟨[[0x65, 0xcc, 0x81], [0x65]]⟩ : Str).wf ∧
+    (⟨[[0x65, 0xcc, 0x81], [0x65]]⟩ : Str).indexOf [0x65] = some (1, 3) ∧
+    Verif.Spec.Str.indexOf [[0x65, 0xcc, 0x81], [0x65]] [0x65] 0 = some 1 := by
+  refine ⟨?_, by decide, by decide⟩
+  intro c hc; simp at hc; rcases hc with rfl | rfl <;> simp
+
+/-- **`count`** is the greedy left-to-right count of non-overlapping cluster-aligned occurrences (and
+`1 + length` for the empty needle).  `SegStable` is the segmentation assumption of the model restricted
+to what `count` uses: `remaining.slice(index + other.Length(), …)` skips as many clusters as the needle
+has *on its own*, so every aligned occurrence has to span that many clusters of the receiver. -/
+theorem count (s needle : Str) (hw : s.wf) (hnw : needle.wf) :
+    (needle.clusters = [] → s.count needle = 1 + s.clusters.length) ∧
+    (needle.clusters ≠ [] → SegStable s.clusters needle.bytes needle.length →
+      s.count needle = Verif.Spec.Str.count needle.bytes (s.clusters.length + 1) s.clusters) := by
+  constructor
+  · intro h; simp [Str.count, Str.length, h]
+  · intro hne hseg
+    have hl : needle.length ≠ 0 := by simpa [Str.length] using hne
+    have hb : needle.bytes ≠ [] := by
+      cases hc : needle.clusters with
+      | nil => exact absurd hc hne
+      | cons c cs =>
+        have := hnw c (by rw [hc]; simp)
+        intro hb
+        simp [Str.bytes, hc] at hb
+        exact this hb.1
+    have hl' : ¬ (needle.clusters.length = 0) := by simpa [Str.length] using hl
+    simp only [Str.count, Str.length, hl', if_false]
+    exact countLoop_eq_spec needle.bytes hb needle.clusters.length _ s.clusters hw hseg
+
+example : (⟨[[0x61], [0x65, 0xcc, 0x81], [0x61], [0x61]]⟩ : Str).count ⟨[[0x61]]⟩ = 3 ∧
+    Verif.Spec.Str.count [0x61] 5 [[0x61], [0x65, 0xcc, 0x81], [0x61], [0x61]] = 3 := by decide
+
+/-- **`split`** cuts at the greedy left-to-right aligned occurrences of the separator (one part per
+cluster for the empty separator), and **joining the parts with the separator gives back the string**
+(at the byte level, i.e. before `join` re-normalises). -/
+theorem split_join (s sep : Str) (hw : s.wf) (hsw : sep.wf)
+    (hseg : SegStable s.clusters sep.bytes sep.length) :
+    (sep.clusters ≠ [] →
+      s.split sep = (Verif.Spec.Str.split sep.bytes (s.clusters.length + 1) s.clusters).map Str.mk) ∧
+    joinBytes sep.bytes ((s.split sep).map Str.bytes) = s.bytes := by
+  by_cases hne : sep.clusters = []
+  · refine ⟨fun h => absurd hne h, ?_⟩
+    have hb : sep.bytes = [] := by simp [Str.bytes, hne]
+    simp only [Str.split, hb, List.length_nil, if_true, List.map_map]
+    rw [joinBytes_nil_sep]
+    show (s.clusters.map (fun c => [c].flatten)).flatten = s.clusters.flatten
+    simp
+  · have hb : sep.bytes ≠ [] := by
+      cases hc : sep.clusters with
+      | nil => exact absurd hc hne
+      | cons c cs =>
+        have := hsw c (by rw [hc]; simp)
+        intro hb
+        simp [Str.bytes, hc] at hb
+        exact this hb.1
+    have hl : sep.bytes.length ≠ 0 := by simpa using hb
+    have e : s.split sep = (Verif.Spec.Str.split sep.bytes (s.clusters.length + 1) s.clusters).map Str.mk := by
+      simp only [Str.split, hl, if_false, Str.length]
+      exact splitLoop_eq_spec sep.bytes hb sep.clusters.length _ s.clusters hw hseg
+    refine ⟨fun _ => e, ?_⟩
+    rw [e, List.map_map]
+    exact spec_split_join sep.bytes _ s.clusters
+
+example : (⟨[[0x61], [0x2c], [0x65, 0xcc, 0x81], [0x2c], [0x2c]]⟩ : Str).split ⟨[[0x2c]]⟩ =
+    [⟨[[0x61]]⟩, ⟨[[0x65, 0xcc, 0x81]]⟩, ⟨[]⟩, ⟨[]⟩] := by decide
 
 /-- `String.encodeHex` followed by `decodeHex` is the identity on byte arrays. -/
 theorem hex_roundtrip (bs : Bytes) : decodeHex (encodeHex bs) = .ok bs := decode_encode bs
